@@ -19,8 +19,8 @@ package fmap
 //@ o-requires: f != nil
 //@ o-ensures: [map] len(r) == len(list) && forall j int :: 0 <= j && j < len(list) ==> r[j] == f(list[j])
 //@ o-ensures: [once-per-element-in-order] traceLen() == len(list) && forall j int :: 0 <= j && j < len(list) ==> called(j, f, list[j])
-//@ o-loop: 1: invariant len(out) == len(list) && traceLen() == $i
-//@ o-loop: 1: invariant forall j int :: 0 <= j && j < $i ==> out[j] == f(list[j]) && called(j, f, list[j])
+//@ o-loop: 1: invariant len($out0) == len(list) && traceLen() == $i
+//@ o-loop: 1: invariant forall j int :: 0 <= j && j < $i ==> $out0[j] == f(list[j]) && called(j, f, list[j])
 
 //@ func (g *gen) genString(typs []types.Type) (err error)
 //@ param typs: len=2
@@ -30,8 +30,8 @@ package fmap
 //@ o-requires: f != nil
 //@ o-ensures: [map-over-runes] len(r) == runeCount(ss) && forall k int :: 0 <= k && k < runeCount(ss) ==> r[k] == f(runeAt(ss, k))
 //@ o-ensures: [once-per-rune-in-order] traceLen() == runeCount(ss) && forall k int :: 0 <= k && k < runeCount(ss) ==> called(k, f, runeAt(ss, k))
-//@ o-loop: 1: invariant len(out) == runeCount(ss) && traceLen() == $i && i == $i
-//@ o-loop: 1: invariant forall k int :: 0 <= k && k < $i ==> out[k] == f(runeAt(ss, k)) && called(k, f, runeAt(ss, k))
+//@ o-loop: 1: invariant len($out0) == runeCount(ss) && traceLen() == $i && i == $i
+//@ o-loop: 1: invariant forall k int :: 0 <= k && k < $i ==> $out0[k] == f(runeAt(ss, k)) && called(k, f, runeAt(ss, k))
 
 //@ func (g *gen) genError(typs []types.Type) (err error)
 //@ param typs: len=2
